@@ -22,6 +22,7 @@ import (
 
 	"verif/checker/internal/engine"
 	"verif/checker/internal/load"
+	"verif/checker/internal/peg"
 	"verif/checker/internal/regions"
 	"verif/checker/internal/report"
 
@@ -77,6 +78,44 @@ func main() {
 				a.DumpFunc(os.Stdout, f)
 			}
 		}
+	case args[0] == "dbg-peg":
+		p := mustLoad()
+		src, err := os.ReadFile(filepath.Join(p.Dir, "jsonpath.peg"))
+		if err != nil {
+			die2("%v", err)
+		}
+		g, err := peg.ParseSource(string(src))
+		if err != nil {
+			die2("%v", err)
+		}
+		gen := peg.Decompile(p.GenFile)
+		fmt.Printf("source rules=%d actions=%d; generated functions=%d nil slots=%d errors=%v\n", len(g.Rules), len(g.Actions), len(gen.Rules), len(gen.NilSlots), gen.Errors)
+		facts := peg.NewFacts(g)
+		for _, r := range g.Rules {
+			ns := peg.Normalize(r.E)
+			fmt.Printf("SRC %-28s %s\n", r.Name, ns)
+			if gr := gen.Rules[r.Name]; gr != nil {
+				if gr.Err != "" {
+					fmt.Printf("GEN %-28s ERROR %s\n", r.Name, gr.Err)
+				}
+				if gr.E != nil {
+					ng := peg.Normalize(gr.E)
+					fmt.Printf("GEN %-28s %s\n", r.Name, ng)
+					ok, why := facts.Equivalent(ns, ng)
+					fmt.Printf("    equivalent=%v %s\n", ok, why)
+				}
+			} else {
+				for _, e := range gen.Inlined[r.Name] {
+					ng := peg.Normalize(e)
+					ok, why := facts.Equivalent(ns, ng)
+					fmt.Printf("INL %-28s %s\n    equivalent=%v %s\n", r.Name, ng, ok, why)
+				}
+				if len(gen.Inlined[r.Name]) == 0 {
+					fmt.Printf("    NOT FOUND in generated code\n")
+				}
+			}
+		}
+		fmt.Println("well-formedness:", facts.WellFormed())
 	case args[0] == "list":
 		for _, id := range propIDs() {
 			fmt.Println(id, strings.Join(properties[id].Rules, " "))
